@@ -908,7 +908,11 @@ def claim_c14(kind, mm):
     k = kind.split(":")[0]
     return kind == "Job:ExpireSubs" or k == "SetDelay" or (k == "Pull" and ("MSubs" in mm or "MResp" in mm or "MTime" in mm)) or \
         (k == "Publish" and "MDels" in mm) or (k in ("CreateSub", "UpdateSub") and "MSubs" in mm) or kind == "Job:PruneExpiredDeliveries" or \
-        "d.expires" in mm or "s.expires" in mm      # retention / expiry deadlines written by any step (seek revival included)
+        "d.expires" in mm or "s.expires" in mm or \
+        (k in ("CreateSub", "UpdateSub") and "MTime" in mm) or \
+        "new:d.attempt_at" in mm      # retention / expiry deadlines written by any step (seek revival included); the expiry base of a
+                                      # (re)configured subscription (the harness reads the written time off expires_at - ttl); the first
+                                      # attempt time of a delivery created by the step (publish / forward time + injected delay)
 
 
 def claim_c08e(kind, mm, st):
@@ -939,7 +943,11 @@ def claim_c16(kind, mm, st):
 
 def claim_c07(kind, mm):
     # routing by filter: which subscriptions get a delivery when something is published or forwarded
-    return "missing-delivery" in mm or "unexpected-delivery" in mm or (kind.split(":")[0] == "Publish" and "MDels" in mm)
+    k = kind.split(":")[0]
+    # (a filter stored differently from the text the client gave routes by another filter from then on:
+    # with step-local checking only the storing step shows it)
+    return "missing-delivery" in mm or "unexpected-delivery" in mm or (k == "Publish" and "MDels" in mm) or \
+        (k in ("CreateSub", "UpdateSub") and "s.filter" in mm)
 
 
 def claim_c03(kind, mm):
